@@ -53,7 +53,8 @@ class C09(EvalFamProp):
                     elif r < 0.3: v = M([('in', v)])
                     elif r < 0.4: v = M([(0, v)], tag={'k': 'call', 'f': 'rec.f'})
                 else:
-                    v = rng.choice([S(1), Q([S(1), S(2)]), M([('z', S(3))]), M([], tag={'k': 'call', 'f': 'rec.g'})])
+                    v = rng.choice([S(1), Q([S(1), S(2)]), M([('z', S(3))]), M([], tag={'k': 'call', 'f': 'rec.g'}),
+                                    S(None), Sempty(), S(0), S(''), Q([]), M([]), S(False)])      # falsy / null targets too
                 items.append((nm, v))
             docs = [{'raw': M(items)}]
             if rng.random() < 0.3 and len(items) > 1:     # part of the graph arrives in a later document
@@ -129,6 +130,36 @@ class C09(EvalFamProp):
         else:
             if cfg.get('err') not in ('eval', 'unsafe', 'required', 'merge', 'premerge', 'parsing', 'recursion', 'value'):
                 return f'unexpected failure class {cfg.get("err")}'
+            # a tree of plain data and references only, all safe, in which every chain ends at an existing node: nothing can fail
+            def all_resolve_acyclic():
+                # on path TUPLES (the text of a path is ambiguous): every reference names an existing node, and - evaluating a
+                # node evaluates everything below it, a reference evaluates its target - no node needs itself
+                by_t = {tuple(json.loads(m['pt'])) if False else m['pt']: m for m in nodes}
+                tup = {m['pt']: json.loads(m['pt']) for m in nodes}
+                below = lambda q: [m['pt'] for m in nodes if len(tup[m['pt']]) > len(tup[q]) and tup[m['pt']][:len(tup[q])] == tup[q]]
+                state = {}
+                def visit(q):
+                    if state.get(q) == 1: return False
+                    if state.get(q) == 2: return True
+                    state[q] = 1
+                    nd = by_t[q]
+                    if nd['kind'] == 'xref':
+                        try:
+                            t = json.dumps([sc_json(k) for k in NodePath.get_list_path(nd['text'])])
+                        except Exception:
+                            return False
+                        if t not in by_t: return False
+                        nxt = [t]
+                    else:
+                        nxt = below(q)
+                    ok = all(visit(t) for t in nxt)
+                    state[q] = 2
+                    return ok
+                return all(visit(q) for q in by_t)
+            if (cfg.get('err') == 'eval' and chains and all(n['kind'] in ('xref', 'scalar', 'comp') for n in nodes)
+                    and all(n['safe'] for n in nodes) and all_resolve_acyclic()):
+                return ('every reference leads to an existing node (no cycle, nothing missing, plain data only) but the build failed '
+                        'with an evaluation error')
         return None
 
     def finding_key(self, case, desc):
